@@ -15,7 +15,12 @@ for d in srcs:
     if not os.path.isfile(conf):
         print('no confirm.json, skipping', d); continue
     c = json.load(open(conf))
-    ok = c['applies'] and c['suite_passed'] >= 58 and c['suite_failed'] == 0 and c['demo_with_change_rc'] != 0 and c['demo_without_change_rc'] == 0
+    benign = False
+    try:
+        benign = bool(json.load(open(os.path.join(d, 'meta.json'))).get('benign'))
+    except Exception:
+        pass
+    ok = c['applies'] and c['suite_passed'] >= 58 and c['suite_failed'] == 0 and c['demo_without_change_rc'] == 0 and ((c['demo_with_change_rc'] == 0) if benign else (c['demo_with_change_rc'] != 0))
     if not ok:
         print('NOT CONFIRMED, skipping', d, c); continue
     prop = os.path.basename(os.path.dirname(d)); name = f'{prop}-{os.path.basename(d)}'
@@ -36,9 +41,11 @@ for d in srcs:
         'breaks': am.get('breaks', ''),
         'needs': am.get('needs', ''),
         'files': am.get('files', []),
+        'benign': benign,
+        'why_equivalent': am.get('why_equivalent', ''),
         'origin': 'written by an independent sub-agent that was given only the property text and a scratch worktree',
         'confirmed': {
-            'how': 'tools/confirm_seed.sh in a fresh scratch worktree of /repo: git apply patch.diff; run demo.py (must fail); run the pinned test suite (must pass); git checkout; run demo.py (must pass)',
+            'how': 'tools/confirm_seed.sh in a fresh scratch worktree of /repo: git apply patch.diff; run demo.py (' + ('must pass: behaviour-preserving change' if benign else 'must fail') + '); run the pinned test suite (must pass); git checkout; run demo.py (must pass)',
             'repo_head': c.get('repo_head'), 'suite_passed_with_change': c['suite_passed'], 'suite_failed_with_change': c['suite_failed'],
             'demo_exit_with_change': c['demo_with_change_rc'], 'demo_exit_without_change': c['demo_without_change_rc'],
         },
@@ -62,6 +69,16 @@ for name, r in sorted(res.items()):
     meta = json.load(open(mp))
     det = sorted(p for p, (s, i) in r.items() if s == 'ok')
     errs = sorted(p for p, (s, i) in r.items() if s == 'MISMATCH' and 'exited 2' in i)
+    if meta.get('benign'):
+        # a behaviour-preserving change: every check that reports a violation is a false alarm of the checker
+        meta['false_alarm_for'] = det
+        meta['detected_by'] = []
+        meta['clean_for'] = sorted(p for p, (s, i) in r.items() if s == 'MISMATCH' and 'exited 0' in i)
+        meta['abstains_for'] = errs
+        meta['detection'] = {p: r[p][1][:300] for p in det}
+        json.dump(meta, open(mp, 'w'), indent=1)
+        print(f'{name}: benign; FALSE ALARMS={det}; abstains={errs}; clean={len(meta["clean_for"])}')
+        continue
     meta['detected_by'] = det
     meta['analysis_error_for'] = errs
     meta['clean_for'] = sorted(p for p, (s, i) in r.items() if s == 'MISMATCH' and 'exited 0' in i)
